@@ -20,6 +20,7 @@ with outcome `panic` when it fails, so "never panics" is a theorem about the
 guards, not a consequence of Lean's totality.  Core Lean only.
 -/
 import XlModel.Basic
+import XlModel.Ref
 import XlModel.Generated.Facts
 
 namespace XlModel.Decode
@@ -93,6 +94,23 @@ def mkName (col row : Int) : R :=
   if validCoord col row then .gen col row
   else if col < 1 ∨ row < 1 ∨ row > (Facts.TotalRows : Int) then .absent
   else .junk row
+
+/-- the decoder's view of a cell's `r` attribute: absent, or whatever
+`CellNameToCoordinates` (C20's model of it) makes of the text -/
+def refOf (s : List Char) : R :=
+  if s.isEmpty then .absent
+  else match Ref.cellNameToCoordinates s with
+    | .ok p => .orig (some p)
+    | .error _ => .orig none
+
+/-- decoded rows from the raw attribute texts: `(r, [(c/@r text, hasValue)])`; cell ids are ordinals -/
+def cellsOf : List (List Char × Bool) → Nat → List Cell
+  | [], _ => []
+  | (s, hv) :: rest, n => { r := refOf s, hv := hv, id := some n } :: cellsOf rest (n + 1)
+
+def rowsOf : List (Int × List (List Char × Bool)) → Nat → List Row
+  | [], _ => []
+  | (r, cs) :: rest, n => { r := r, cells := cellsOf cs n } :: rowsOf rest (n + cs.length)
 
 /-- `lastRowNum` closure of `checkSheet` -/
 def lastRowNum (cells : List Cell) : Int :=
@@ -343,6 +361,8 @@ structure SDIn where
   /-- u32 at offset 8 / 16 of the header block -/
   algID : Nat
   keySize : Nat
+  /-- u64 at offset 0 of EncryptedPackage: the declared plaintext size -/
+  pkgSize : Nat
 
 inductive Mech where
   | agile | standard
@@ -364,30 +384,34 @@ def isAES (algID : Nat) : Bool := algID == 0x660E || algID == 0x660F || algID ==
 /-- `len(x3)` in `standardConvertPasswdToKey`: two SHA-1 digests -/
 def x3Len : Nat := 40
 
-/-- tail of `standardDecrypt`: `encryptedPackageBuf[8:]` and the block loop
-(`decrypted[bs:be]`, `x[bs:be]` for `bs = 0, 16, … < n` stay within `n` because `16 ∣ n`) -/
-def sdPackage (pkgLen : Nat) : Outcome Nat :=
+/-- tail of `standardDecrypt`: `encryptedPackageBuf[8:]`, the block loop
+(`decrypted[bs:be]`, `x[bs:be]` for `bs = 0, 16, … < n` stay within `n` because `16 ∣ n`),
+then the length prefix `encryptedPackageBuf[:8]` truncates the plaintext: `decrypted[:size]` -/
+def sdPackage (pkgLen pkgSize : Nat) : Outcome Nat :=
   if ¬ sliceOK pkgLen 8 pkgLen then .panic
   else if (pkgLen - 8) % 16 ≠ 0 then .err
+  else if ¬ sliceOK pkgLen 0 8 then .panic
+  else if pkgSize < pkgLen - 8 then
+    (if ¬ sliceOK (pkgLen - 8) 0 pkgSize then .panic else .ok pkgSize)
   else .ok (pkgLen - 8)
 
 /-- `standardConvertPasswdToKey`: `x3[:cbRequiredKeyLength]`, then `aes.NewCipher` -/
-def sdKey (keySize pkgLen : Nat) : Outcome Nat :=
+def sdKey (keySize pkgLen pkgSize : Nat) : Outcome Nat :=
   if keySize / 8 > x3Len then .err
   else if ¬ sliceOK x3Len 0 (keySize / 8) then .panic
   else if ¬ (keySize / 8 = 16 ∨ keySize / 8 = 24 ∨ keySize / 8 = 32) then .err
-  else sdPackage pkgLen
+  else sdPackage pkgLen pkgSize
 
 /-- size of the verifier: 40 bytes + the encrypted hash (20 for RC4, 32 for AES) -/
 def verifierSize (algID : Nat) : Nat := if isAES algID then 72 else 60
 
 /-- `standardEncryptionVerifier` on a block of `vlen` bytes: `blob[:4]`, `blob[4:20]`,
 `blob[20:36]`, `blob[36:40]`, `blob[40:60]` or `blob[40:72]` -/
-def sdVerifier (vlen algID keySize pkgLen : Nat) : Outcome Nat :=
+def sdVerifier (vlen algID keySize pkgLen pkgSize : Nat) : Outcome Nat :=
   if vlen < verifierSize algID then .err
   else if ¬ (sliceOK vlen 0 4 ∧ sliceOK vlen 4 20 ∧ sliceOK vlen 20 36 ∧ sliceOK vlen 36 40 ∧
              sliceOK vlen 40 (verifierSize algID)) then .panic
-  else sdKey keySize pkgLen
+  else sdKey keySize pkgLen pkgSize
 
 /-- `standardDecrypt`: result = length of the decrypted package -/
 def standardDecrypt (i : SDIn) : Outcome Nat :=
@@ -398,7 +422,7 @@ def standardDecrypt (i : SDIn) : Outcome Nat :=
   -- block[:4] … block[28:32], block[32:]
   else if ¬ (sliceOK i.hdrSize 0 4 ∧ sliceOK i.hdrSize 28 32 ∧ sliceOK i.hdrSize 32 i.hdrSize) then .panic
   else if ¬ sliceOK i.infoLen (12 + i.hdrSize) i.infoLen then .panic
-  else sdVerifier (i.infoLen - (12 + i.hdrSize)) i.algID i.keySize i.pkgLen
+  else sdVerifier (i.infoLen - (12 + i.hdrSize)) i.algID i.keySize i.pkgLen i.pkgSize
 
 inductive SDOut where
   | agile
@@ -411,5 +435,18 @@ def decryptDispatch (i : SDIn) : Outcome SDOut :=
     match m with
     | .agile => .ok .agile
     | .standard => (standardDecrypt i).bind fun n => .ok (.standard n)
+
+/-! ## unzip size accounting -/
+
+/-- the loop of `ReadZipReader`: the declared size of every entry is added to the running total and
+the total is compared with `UnzipSizeLimit` BEFORE the entry is read or spooled to a temporary file -/
+def zipAccount : List Nat → Nat → Nat → Bool
+  | [], _, _ => true
+  | s :: rest, run, limit => if run + s > limit then false else zipAccount rest (run + s) limit
+
+/-- `checkOpenReaderOptions` (both limits given) followed by `ReadZipReader`'s accounting -/
+def openLimits (sizes : List Nat) (limit xmlLimit : Nat) : Outcome Unit :=
+  if xmlLimit > limit then .err
+  else if zipAccount sizes 0 limit then .ok () else .err
 
 end XlModel.Decode
